@@ -51,12 +51,18 @@ package syncx
 //@   ensures [bounded] p.created <= p.limit
 //@   ensures [reuse-or-create] calls(create) <= 1 && (calls(create) == 1 ==> result == ret(create))
 //@   ensures [unlock-once] calls(Unlock) == 1 && calls(Lock) == 1
+// the list is shared with every other Get / Put under p.lock: what the new node is linked in front of is the head
+// as it is UNDER the lock (a head read before the lock may have been handed out by a Get since - linking to it would
+// hand one resource to two holders)
 //@ func (*Pool).Put
 //@   prop C18
 //@   opaque Signal
 //@   requires p != nil
+// p.lock is a sync.Locker (an interface): its Lock is an opaque call, after which the shared head is unknown again
+//@   havoc-on Lock: p.head
 //@   ensures [nil-ignored] x == nil ==> p.head == old(p.head) && calls(Lock) == 0
-//@   ensures [pushed] x != nil ==> p.head != nil && p.head.item == x && p.head.next == old(p.head) && p.head.lastUsed == ret(timex.Now) && fresh(p.head) && calls(Signal) == 1
+//@   ensures [pushed] x != nil ==> p.head != nil && p.head.item == x && p.head.lastUsed == ret(timex.Now) && fresh(p.head) && calls(Signal) == 1
+//@   ensures [linked-in-front-of-the-head-seen-under-the-lock] x != nil ==> calls(Lock) == 1 && calls(Unlock) == 1 && p.head.next == after(Lock, p.head)
 
 // ---- RefResource: cleaned exactly once, when the uses drop to zero; refuses further use ----
 //@ func (*RefResource).Use
